@@ -37,6 +37,7 @@ structure Residue where
   rapidPhaseInvoking : Bool
   gates : List (Nat × Bool × Option CErr)     -- (arrived, canceled, err) of the seven gates
   initAgentsExpected : Nat                    -- expected count of the init flow's agents-ready gate (arrivals may precede its setting)
+  initFailurePending : Bool                   -- an init failure nobody has awaited waits in the interop server's channel
 deriving DecidableEq
 
 def residue (s : State) : Residue :=
@@ -46,7 +47,7 @@ def residue (s : State) : Residue :=
     gates := [s.initFlow.extRegistered, s.initFlow.runtimeReady, s.initFlow.agentReady, s.initFlow.restoreReady,
               s.invFlow.runtimeReady, s.invFlow.runtimeResponse, s.invFlow.agentReady].map
              fun g => (g.arrived, g.canceled, g.err),
-    initAgentsExpected := s.initFlow.agentReady.count }
+    initAgentsExpected := s.initFlow.agentReady.count, initFailurePending := s.initChan.isFailure }
 
 /-- **Reset = fresh.** Whatever the state before (any registrations, subscriptions, recorded fatal
     error, cached init error, parked handlers, barrier arrivals, cancellations, renderer, pending
@@ -55,7 +56,7 @@ def residue (s : State) : Residue :=
 theorem C08_reset_fresh (s : State) (from_ : Nat) :
     residue (resetTail (afterReset s from_) from_) = residue ({} : State) := by
   simp only [resetTail, afterReset, release]
-  split <;> simp [residue, Latch.clear, State.emit]
+  split <;> cases s.initChan <;> simp [residue, Latch.clear, State.emit, InitChan.drain, InitChan.isFailure]
 
 /-!
 What `residue` leaves out, and why it cannot influence later invocations:
@@ -67,6 +68,12 @@ What `residue` leaves out, and why it cannot influence later invocations:
   when its count is set — and it used to keep the count of the previous init, so that such early
   arrivals were refused once the old count was reached and the init never completed (finding F14,
   repaired in /repo 247298e: `Clear` expects the maximum again). It is part of the residue now.
+* `initChan` other than "a failure is pending": whether the one `Init` of the emulator's lifetime has been
+  requested, is running, or has been consumed (`notStarted/pending/closed`) is not a trace of a generation —
+  the next invocation starts the (suppressed) init it needs in all three. A *pending failure* is different:
+  it is the outcome of the torn-down generation's init, and the next invocation used to receive it (cache an
+  error response for it, shut the new environment down) — finding F15, repaired in /repo 90b799c: `Clear`
+  takes it along. It is part of the residue now (`initFailurePending`).
 * `gen`, `nextK`, `procs`, `ids`, `nextSerial`: names only.
 -/
 
@@ -75,6 +82,7 @@ example :
     let dirty : State := { agents := [{ name := "a", ext := true, st := .running, subs := [.invoke], flag := true }],
                            rt := some .running, fatal := some "Extension.Crash", cached := some "errjson:X",
                            cancelDone := true, initDone := true, regOn := false, renderer := .shutdown "x",
+                           initChan := .failure false "Runtime.ExitError",
                            initFlow := { extRegistered := { count := 1, arrived := 1, canceled := true, err := some .procExit },
                                          agentReady := { count := 1, arrived := 1 } } }
     residue (resetTail (afterReset dirty 0) 0) = residue ({} : State) ∧ residue dirty ≠ residue ({} : State) := by
@@ -87,5 +95,22 @@ theorem C08_early_arrival_counted (s : State) (from_ : Nat) :
     ((resetTail (afterReset s from_) from_).initFlow.agentReady.walk).2 = true := by
   simp only [resetTail, afterReset, release]
   split <;> simp [Latch.walk, Latch.clear, State.emit]
+
+/-- **A reset takes an un-awaited init failure with it** (F15): whatever the interop server's channel
+    held, after the reset no failure of the old generation waits for the next invocation. -/
+theorem C08_no_pending_init_failure (s : State) (from_ : Nat) :
+    (resetTail (afterReset s from_) from_).initChan.isFailure = false := by
+  simp only [resetTail, afterReset, release]
+  split <;> cases s.initChan <;> simp [State.emit, InitChan.drain, InitChan.isFailure]
+
+-- the history of F15 in the model: an init without an invocation fails (the runtime reports an init error and
+-- exits), the idle emulator is reset, and the next invocation's runtime dies after taking the event: the
+-- caller is told Runtime.ExitError — as on a fresh emulator (second conjunct) — not the stale empty response
+example :
+    let prefix_ : List Op := [.init, .rtInitError "Runtime.Boom", .exit "runtime" "code1" false, .reset "timeout", .timer (.resetTail 0)]
+    let suffix : List Op := [.invoke 1 5 "h", .rtNext, .exit "runtime" "code1" false, .timer (.resetTail 2)]
+    "caller1 done err=InvokeDoneFailed body=errjson:Runtime.ExitError" ∈ ((prefix_ ++ suffix).foldl (step 0) {}).outs ∧
+    "caller1 done err=InvokeDoneFailed body=errjson:Runtime.ExitError" ∈ (suffix.foldl (step 0) {}).outs := by
+  decide +kernel
 
 end Rie.Props.C08
